@@ -188,6 +188,46 @@ package core
 //@   pure
 
 // ---------------------------------------------------------------------------------------------
+// Command location expansions (C37)
+//
+// quote: a path must come out as ONE shell word. A string with no character that is special to the shell
+// is left alone; a string with a word-splitting or control character must be quoted.
+//@ spec splitsWord(s string) bool = strings.ContainsAny(s, " \t\n|&;()<>")
+//@ spec quoteGap(s string) bool = strings.ContainsAny(s, " \t\n") && !strings.ContainsAny(s, "|&;()<>")
+//@ func quote
+//@   modifies nothing
+//@   ensures plain_unchanged [C37]: !strings.ContainsAny(s, " \t\n|&;()<>$`\"'*?[\\") ==> result == s
+//@   ensures one_word [C37 except=quoteGap]: splitsWord(s) ==> result == "\"" + s + "\""
+//
+//@ func handleDir
+//@   modifies nothing
+//@   ensures dir [C37]: dir ==> result == outDir
+//@   ensures file [C37]: !dir ==> result == filepath.Join(outDir, output)
+//
+// fileDestination: where the named output exists when the command runs.
+//@ assume func (BuildTarget).OutDir
+//@   pure
+//@ assume func (BuildTarget).Outputs
+//@   pure
+//@ func fileDestination
+//@   requires target != nil && dep != nil
+//@   modifies nothing
+//@   ensures out_prefix [C37]: outPrefix ==> result == handleDir(dep.OutDir(), out, dir)
+//@   ensures own_test_binary [C37]: !outPrefix && test && target == dep ==> result == "./" + out
+//@   ensures in_package [C37]: !outPrefix && !(test && target == dep) ==> result == handleDir(dep.Label.PackageName, out, dir)
+//
+// checkAndReplaceSequence rejects (by panicking; replaceSequencesInternal turns that into an error) a
+// sequence with the wrong number of outputs, a non-binary $(exe), or a tool at test time. So on a normal
+// return none of these holds.
+//@ func checkAndReplaceSequence
+//@   requires state != nil && target != nil && dep != nil
+//@   opt panics=allowed
+//@   opt nopanic=off
+//@   ensures wrong_output_count_rejected [C37]: !(allOutputs && !multiple && len(old(dep.Outputs())) > 1 && ep == "")
+//@   ensures non_binary_exe_rejected [C37]: !(runnable && !old(dep.IsBinary)) && !(runnable && len(old(dep.Outputs())) == 0)
+//@   ensures test_time_tool_rejected [C37]: !(test && tool)
+
+// ---------------------------------------------------------------------------------------------
 // Configuration layering (C39): the order in which files are applied.
 //
 // Reading one file is opaque here (gcfg does the merging); what is proved is the ORDER of the reads.
